@@ -1,5 +1,10 @@
 import LoraVerif.Props.C03
 import LoraVerif.Props.TieA.MacCmdFrame
+import LoraVerif.Props.TieA.MacCmdFrameUplinkMacCommand
+import LoraVerif.Props.TieA.MacCmdFrameDownlinkDUTCommand
+import LoraVerif.Props.TieA.MacCmdFrameUplinkDUTCommand
+import LoraVerif.Props.TieA.MacCmdFrameDownlinkRemoteSetup
+import LoraVerif.Props.TieA.MacCmdFrameUplinkRemoteSetup
 /-!
 # C03 — the module `./check C03` builds: the property theorems (`Props/C03.lean`) together with the tie-A
 equalities between the hand model of the MAC-command iterator and the framing step regenerated from the current
